@@ -1,6 +1,34 @@
 #!/usr/bin/env python3
 """Prints the DESIGN 10.6 table from seeded/*/meta.json."""
 import glob, json, os, re
+WHAT = {
+ 'C27-seed1': 'hash() processes aligned 32-bit words: result depends on the buffer address',
+ 'C27-seed2': 'operator= copies the cached short string and marks it valid, ^= xors in place (two cooperating sites): stale short string on a copy made after getString(); ^=',
+ 'C05-seed1': 'device::malloc decides accounting from the use_host_pointer property instead of isWrapped (differs when no source pointer is given)',
+ 'C05-seed2': 'pool accounting folded into a helper; setAlignment passes the old reserved size instead of the new buffer size',
+ 'C02-seed1': 'copyTo(memory): destination offset scaled by the source element size',
+ 'C02-seed2': 'serial copyFrom(modeMemory_t*): bogus self-copy shortcut when buffer and view-relative offsets coincide',
+ 'C14-seed1': '?: folding evaluates both branches',
+ 'C14-seed2': 'primitiveType flags regrouped (signed, then unsigned): common-type choice wrong for unsigned int x long',
+ 'C01-seed1': 'modeMemory_t::addMemoryRef returns early after dontUseRefs(): later copies are not nulled by free()',
+ 'C01-seed2': 'swap() relinks in place in the wrong order: breaks when a third handle shares one of the objects',
+ 'C12-seed1': 'unescape() also collapses an escaped backslash (printing still escapes only the quote)',
+ 'C12-seed2': 'tokenizer skipTo/skipFrom: shared helper always advances two bytes over a backslash (steps over the NUL)',
+ 'C13-seed1': 'macro-expansion bookkeeping: outer macro stays marked as being expanded after an empty expansion',
+ 'C13-seed2': 'short-circuit of && / || returns the left operand instead of its truth value',
+ 'C17-seed1': 'inclusive +1 added after the ceiling division of the launch count',
+ 'C17-seed2': 'comparison normalised with the negation table instead of the mirror table when the bound is the left operand',
+ 'C06-seed1': 'property name and value hashed separately and XOR-ed',
+ 'C06-seed2': 'string kernels staged under a partial hash (file-system level)',
+ 'C03-seed1': 'hole search: offset = mhi instead of max(offset, mhi) (a slice ending earlier moves the candidate backwards)',
+ 'C03-seed2': 'comparator drops the pointer tie-break (std::tie of offset, size): equal ranges become one set entry',
+ 'C04-seed1': 'coverage sweep factored into a helper with `mhi <= lo` instead of `mhi <= cursor`',
+ 'C29-seed1': 'occaString("") stored as JSON null (NULL string detected by bytes == 0)',
+ 'C24-seed1': 'dump writes \\u00XX for control characters, which loadString does not decode',
+ 'C28-seed1': 'nestedRemove erases a node that still stores a key (prefix of the removed key)',
+ 'C18-seed1': 'in-block check operator chosen from the loop direction: reversed for inclusive comparisons with the bound on the left',
+ 'C19-seed1': 'parentheses only when the operand binds looser: right operand of dim * index with / or % left bare',
+}
 rows = []
 for p in sorted(glob.glob(os.path.join(os.path.dirname(os.path.abspath(__file__)), 'seeded', '*', 'meta.json'))):
     m = json.load(open(p))
@@ -10,7 +38,7 @@ for p in sorted(glob.glob(os.path.join(os.path.dirname(os.path.abspath(__file__)
     if c.get('violations'):
         mm = re.search(r'obligation="([^"]*)"', c['violations'][0])
         obl = mm.group(1)[:110] if mm else ''
-    what = m.get('what', '')
+    what = m.get('what', '') or WHAT.get(m['seed'], '')
     rows.append('| %s | %s | %s | %s | %s | %s |' % (m['seed'], m['property'], what, 'yes' if m.get('confirmed') else 'NO',
                 'caught (%d VIOLATION lines, exit %s)' % (c.get('n_violations', 0), c.get('exit')) if m.get('detected') else
                 ('undecided (exit 2)' if c.get('exit') == 2 else 'MISSED (exit %s)' % c.get('exit')), obl))
